@@ -12,6 +12,7 @@ import (
 	"math/rand/v2"
 	"runtime"
 	"sync"
+	"sync/atomic"
 	"time"
 
 	"verifharness/internal/bgpx"
@@ -26,7 +27,11 @@ type c18case struct {
 	N       int           `json:"n"`
 	PfxMode string        `json:"pfx_mode"`
 	PfxSeed uint64        `json:"pfx_seed"`
-	Flush   string        `json:"flush"` // eor | ticker
+	Flush   string        `json:"flush"` // eor | ticker | ticker-held
+	// ticker-held: the ticker goroutine is held inside its HoldAt-th connection write (a peer that reads slowly) while
+	// Late further prefixes are queued with the same attributes
+	Late   int `json:"late,omitempty"`
+	HoldAt int `json:"hold_at,omitempty"`
 	Block   string        `json:"block"` // how the attribute block was chosen
 	Target  int           `json:"target,omitempty"`
 }
@@ -100,6 +105,9 @@ func genCase(rng *rand.Rand, i int) c18case {
 		if rng.IntN(3) == 0 {
 			v := make([]byte, rng.IntN(256))
 			p.Unknown = []bgpx.Unk{{Type: uint8(100 + rng.IntN(100)), Optional: true, Value: hex.EncodeToString(v)}}
+		}
+		if rng.IntN(3) == 0 {
+			p.OTC = 1 + rng.Uint32N(64000) // ONLY_TO_CUSTOMER (RFC 9234)
 		}
 	}
 	fill := func(n int) []uint32 {
@@ -191,11 +199,20 @@ func genCase(rng *rand.Rand, i int) c18case {
 	if i%8 == 7 {
 		c.Flush = "ticker"
 	}
+	if i%8 == 3 {
+		c.Flush = "ticker-held"
+		c.HoldAt = rng.IntN(3)
+		c.Late = 1 + rng.IntN(40)
+		if rng.IntN(4) == 0 {
+			c.Late = 40 + rng.IntN(400)
+		}
+	}
 	return c
 }
 
 type cstat struct {
 	msgs, announced, maxLen, empty, unsendable int
+	heldLate                                   int // prefixes queued while the sender was held inside a write
 	multi                          bool // more than one announcement message: the budget decided a cut
 	hung                           bool
 }
@@ -210,15 +227,13 @@ func runCase(c c18case, rep func(clause string, f map[string]string, detail stri
 			rep("panic", vf.F("where", bgpx.PanicSite(stk)), fmt.Sprintf("%s: panic: %v\n%s", s, p, stk))
 		}
 	}()
-	pfxs := bgpx.Pfxs(!s.V6, c.N, c.PfxMode, c.PfxSeed)
+	pfxs := bgpx.Pfxs(!s.V6, c.N+c.Late, c.PfxMode, c.PfxSeed)
+	late := pfxs[c.N:]
 	u, cap := bgpx.NewSender(s)
-	for _, p := range pfxs {
+	for _, p := range pfxs[:c.N] {
 		u.AddPath(p.Bio(), c.Path.Bio())
 	}
-	if c.Flush == "ticker" {
-		// started after queueing so that the first tick sees the whole queue (which prefixes share a round
-		// would otherwise depend on the scheduler and the case would not replay)
-		u.Start(5 * time.Millisecond)
+	drain := func() {
 		deadline := time.Now().Add(30 * time.Second)
 		for u.VerifPending() != 0 {
 			if time.Now().After(deadline) {
@@ -228,6 +243,53 @@ func runCase(c c18case, rep func(clause string, f map[string]string, detail stri
 			time.Sleep(time.Millisecond)
 		}
 		u.Destroy() // rendezvous with the sender goroutine at the top of its loop: the round that emptied the queue has been written
+	}
+	if c.Flush == "ticker-held" {
+		var nw atomic.Int32
+		entered, release, drained := make(chan struct{}, 1), make(chan struct{}), make(chan struct{})
+		cap.Gate = func([]byte) {
+			if int(nw.Add(1))-1 == c.HoldAt {
+				entered <- struct{}{}
+				<-release
+			}
+		}
+		u.Start(5 * time.Millisecond)
+		go func() { // the queue may drain in fewer than HoldAt+1 writes: then nothing is held
+			deadline := time.Now().Add(30 * time.Second)
+			for u.VerifPending() != 0 && time.Now().Before(deadline) {
+				time.Sleep(time.Millisecond)
+			}
+			close(drained)
+		}()
+		addLate := func() {
+			for _, p := range late {
+				u.AddPath(p.Bio(), c.Path.Bio())
+			}
+		}
+		select {
+		case <-entered:
+			// the sender is inside con.Write: queue the late prefixes from another goroutine (a sender that keeps its
+			// queue locked while writing makes them wait until the round is over), give them 30 ms to run, release
+			st.heldLate = len(late)
+			done := make(chan struct{})
+			go func() { addLate(); close(done) }()
+			select {
+			case <-done:
+			case <-time.After(30 * time.Millisecond):
+			}
+			close(release)
+			<-done
+		case <-drained:
+			close(release)
+			addLate()
+		}
+		<-drained
+		drain()
+	} else if c.Flush == "ticker" {
+		// started after queueing so that the first tick sees the whole queue (which prefixes share a round
+		// would otherwise depend on the scheduler and the case would not replay)
+		u.Start(5 * time.Millisecond)
+		drain()
 	} else {
 		u.EndOfRIB()
 	}
@@ -298,9 +360,9 @@ func runCase(c c18case, rep func(clause string, f map[string]string, detail stri
 		}
 	}
 	st.multi = st.msgs > 1
-	lost, dup, extra := 0, 0, 0
+	lost, lostLate, dup, extra := 0, 0, 0, 0
 	var firstLost gen.P
-	for _, p := range pfxs {
+	for pi, p := range pfxs {
 		switch n := got[p.Key()]; {
 		case n == 0:
 			// a prefix that does not fit into an UPDATE of 4096 bytes even on its own (attribute block + this one
@@ -318,6 +380,9 @@ func runCase(c c18case, rep func(clause string, f map[string]string, detail stri
 				firstLost = p
 			}
 			lost++
+			if pi >= c.N {
+				lostLate++
+			}
 		case n > 1:
 			dup++
 		}
@@ -327,6 +392,13 @@ func runCase(c c18case, rep func(clause string, f map[string]string, detail stri
 			extra++
 		}
 	}
+	if c.Flush == "ticker-held" {
+		how := "the queue drained before that write"
+		if st.heldLate > 0 {
+			how = "queued while the sender was inside that write"
+		}
+		c.Flush = fmt.Sprintf("%s[hold at write %d, %d late prefixes %s]", c.Flush, c.HoldAt, c.Late, how) // c is this function's copy
+	}
 	ctx := fmt.Sprintf("%s, %d prefixes (%s), block %s, flush %s: %d messages, attribute block truly %d bytes, estimated %d (budget %d)", s, c.N, c.PfxMode, c.Block, c.Flush, st.msgs, trueAttr, est, estBudget(&c))
 	if st.hung {
 		rep("hang", feat(), ctx+": the ticker did not drain the queue within 30 s")
@@ -334,7 +406,11 @@ func runCase(c c18case, rep func(clause string, f map[string]string, detail stri
 	if lost > 0 {
 		// the queue is cut into consecutive runs: was the run that starts the queue among the lost ones?
 		firstRunLost := got[pfxs[0].Key()] == 0
-		rep("lost", feat("first_update_lost", firstRunLost, "attribute_length_underestimated", under), fmt.Sprintf("%s: %d of %d queued prefixes never announced (first: %s)", ctx, lost, c.N, firstLost))
+		if st.heldLate > 0 && lostLate == lost {
+			rep("lost-queued-during-write", feat("attribute_length_underestimated", under), fmt.Sprintf("%s: %d of the %d prefixes that were queued while the sender was writing an UPDATE with the same attributes were never announced (first: %s)", ctx, lost, c.Late, firstLost))
+		} else {
+			rep("lost", feat("first_update_lost", firstRunLost, "attribute_length_underestimated", under), fmt.Sprintf("%s: %d of %d queued prefixes never announced (first: %s)", ctx, lost, c.N+c.Late, firstLost))
+		}
 	}
 	if dup > 0 {
 		rep("duplicate", feat(), fmt.Sprintf("%s: %d prefixes announced more than once", ctx, dup))
@@ -385,7 +461,7 @@ func decodeLenient(body []byte, o wire.Options) (*wire.Update, error) {
 func main() {
 	vf.Main("C18", "exploration", func(r *vf.Run) {
 		bgpx.Quiet()
-		r.Rule("configurations = {IPv4, IPv4-MP, IPv6-MP} x add-path on/off x {eBGP, iBGP, RR client} (all 18 combinations cycled) x 2/4-octet AS x attribute block {small; combination of MED, AGGREGATOR, ATOMIC_AGGREGATE, ORIGINATOR_ID/CLUSTER_LIST, unknown attribute, several AS_PATH segments, communities, large communities; blocks at the 255-byte extended-length thresholds; big blocks whose sender-estimated NLRI budget is binary-searched at run time to a target of 40..940 bytes; tiny budgets of -12..84 bytes, i.e. including estimates below one NLRI} x N in 1..5000 distinct prefixes with mixed / short / host lengths (NLRI of 1-5 resp. 1-17 bytes) x flush by EndOfRIB() (7 of 8) or by the 5 ms ticker (1 of 8). distinct_nontrivial = configurations in which the sender cut the queue into more than one UPDATE (the budget decided), keyed by (session, block, N, prefix mode)")
+		r.Rule("configurations = {IPv4, IPv4-MP, IPv6-MP} x add-path on/off x {eBGP, iBGP, RR client} (all 18 combinations cycled) x 2/4-octet AS x attribute block {small; combination of MED, AGGREGATOR, ATOMIC_AGGREGATE, ORIGINATOR_ID/CLUSTER_LIST, ONLY_TO_CUSTOMER, unknown attribute, several AS_PATH segments, communities, large communities; blocks at the 255-byte extended-length thresholds; big blocks whose sender-estimated NLRI budget is binary-searched at run time to a target of 40..940 bytes; tiny budgets of -12..84 bytes, i.e. including estimates below one NLRI} x N in 1..5000 distinct prefixes with mixed / short / host lengths (NLRI of 1-5 resp. 1-17 bytes) x flush by EndOfRIB() (6 of 8), by the 5 ms ticker (1 of 8), or by the ticker with a slow peer (1 of 8): the ticker goroutine is held inside its 1st, 2nd or 3rd connection write (capture gate) while 1..440 further prefixes with the same attributes are queued from another goroutine, then released and drained - all N + late prefixes must be announced exactly once. distinct_nontrivial = configurations in which the sender cut the queue into more than one UPDATE (the budget decided), keyed by (session, block, N, prefix mode)")
 		r.Assume("attribute blocks stay within what serialises correctly (C17 owns one-byte length overflows): segments <= 255 ASNs, CLUSTER_LIST <= 63, unknown attributes <= 255 bytes",
 			"every attribute block leaves room for at least a few NLRI according to a correct size computation",
 			"an UPDATE that announces nothing is not judged", "a 6-byte AGGREGATOR on a 4-octet-AS session and a cleared Partial bit are C17 findings and tolerated here")
@@ -414,7 +490,7 @@ func main() {
 			st := runCase(c, mk(c))
 			r.Eval(st.announced + st.msgs)
 			r.Count("configurations", 1)
-			r.Count("prefixes_queued", c.N)
+			r.Count("prefixes_queued", c.N+c.Late)
 			r.Count("prefixes_announced", st.announced)
 			r.Count("updates_captured", st.msgs)
 			r.Count("updates_without_nlri", st.empty)
@@ -426,6 +502,10 @@ func main() {
 			}
 			if c.Flush == "ticker" {
 				r.Count("flushed_by_ticker", 1)
+			}
+			if st.heldLate > 0 {
+				r.Count("configurations_with_prefixes_queued_during_a_write", 1)
+				r.Count("prefixes_queued_during_a_write", st.heldLate)
 			}
 			mu.Lock()
 			perBlock[c.Block]++
@@ -439,5 +519,6 @@ func main() {
 		r.Set("configurations_by_session", perSess)
 		r.Require("configurations_with_several_updates", int64(n/4))
 		r.Require("flushed_by_ticker", int64(n/16))
+		r.Require("configurations_with_prefixes_queued_during_a_write", int64(n/24))
 	})
 }
